@@ -312,7 +312,16 @@ impl LuaDocLexer<'_> {
             }
             ch if ch == '"' || ch == '\'' => {
                 reader.bump();
-                reader.eat_while(|c| c != ch);
+                // a backslash escapes the next character: `"a\"b"` is one string token
+                while !reader.is_eof() && reader.current_char() != ch {
+                    if reader.current_char() == '\\' {
+                        reader.bump();
+                        if reader.is_eof() {
+                            break;
+                        }
+                    }
+                    reader.bump();
+                }
                 if reader.current_char() == ch {
                     reader.bump();
                 }
